@@ -147,7 +147,11 @@ impl Display for ErrorKind {
                 )
             }
             Self::InvalidData(inner) => inner.fmt(f),
-            _ => todo!(),
+            #[cfg(feature = "alloc")]
+            Self::AllocationError(inner) => write!(f, "failed to allocate memory: {inner}"),
+            Self::AllocationLimitReached { requested, remaining } => {
+                write!(f, "allocation limit reached: attempted to allocate '{requested}' bytes with only '{remaining}' bytes remaining")
+            }
         }
     }
 }
@@ -188,7 +192,8 @@ impl Display for InvalidDataErrorKind {
                     "value '{value}' is outside the allowed range for type '{typename}'; values must be within [{min}..{max}]"
                 )
             }
-            _ => todo!(),
+            #[cfg(feature = "alloc")]
+            Self::InvalidString(inner) => write!(f, "invalid string: {inner}"),
         }
     }
 }
